@@ -260,6 +260,9 @@ DIRECTED = [
     "handlers = [lambda *args, **kwargs: (args, kwargs), lambda first, second, /: first + second, lambda value, *rest, flag=None: (value, rest, flag)]\n",
     "def f():\n    from django.db.models import Q\n    from re import I, M\n    alpha=beta=gamma=delta=epsilon=zeta=eta=theta=iota=kappa=lam=mu=nu=xi=omicron=pi=rho=sigma=1\n    return [alpha,beta,gamma,delta,epsilon,zeta,eta,theta,iota,kappa,lam,mu,nu,xi,omicron,pi,rho,sigma,Q,I,M,alpha,beta,gamma,delta,epsilon,zeta,eta,theta,iota,kappa,lam,mu,nu,xi,omicron,pi,rho,sigma]\n",
     "x = 1\ndef f(x):\n    class C:\n        x = x\n    return C.x\nprint(f(10))\n",
+    "def make(scale):\n    limit = scale * 10\n    class Config:\n        A = 'alpha'\n        B = 'beta'\n        C = 'gamma'\n        threshold = limit\n        def D(self):\n            return limit\n    return Config.threshold, Config.A, Config.B, Config().D()\nprint(make(3))\n",
+    "def build(prefix, suffix):\n    joined = prefix + suffix\n    class Names:\n        A = 1\n        B = 2\n        class C:\n            inner = joined\n        first = joined\n        second = [joined for _ in range(1)]\n    return Names.first, Names.C.inner, Names.second, Names.A, Names.B\nprint(build('p', 's'))\n",
+    "def tagged():\n    class Tags:\n        A = 'shared text'\n        B = 'shared text'\n        C = 'shared text', 'shared text', 'shared text'\n        D = 'other text', 'other text', 'other text', 'other text'\n    return Tags.A, Tags.B, Tags.C, Tags.D\nprint(tagged())\n",
     "class Bus:\n    def register(*handlers, priority=0, label='x'):\n        return handlers, priority, label\n    @classmethod\n    def make(*, alpha_value, beta_value=1):\n        return alpha_value, beta_value\n    async def run(*, mode_name):\n        return mode_name\n    @staticmethod\n    def static_one(*, flag_name):\n        return flag_name\n    def only_kwargs(**options):\n        return options\n    def normal(self, first_arg, *, keyword_arg=None):\n        return first_arg, keyword_arg\n    @classmethod\n    def build(cls, *parts, joiner=''):\n        return joiner.join(parts)\nprint(Bus.register(1, 2, priority=3), Bus.static_one(flag_name=1))\n",
     'def outer_function():\n    class Local:\n        def method(*args_tuple, keyword_one=1, keyword_two=2):\n            return args_tuple, keyword_one, keyword_two\n        def plain(*, only_keyword):\n            return only_keyword\n    return Local\n',
     'def f(text):\n    from re import I, M\n    from django.db.models import Q, F\n    flags = [I, M, Q, F, I, M, Q, F, I, M, Q, F, I | M]\n    alpha = beta = gamma = delta = epsilon = zeta = eta = theta = iota = kappa = lam = mu = nu = xi = 1\n    return [flags, alpha, beta, gamma, delta, epsilon, zeta, eta, theta, iota, kappa, lam, mu, nu, xi, text]\n',
